@@ -1475,7 +1475,13 @@ impl CanonicalizeContext {
 					} else {
 						// copy pair
 						new_children.push(children[i]);
-						new_children.push(children[i+1]);
+						if i+1 < n {
+							new_children.push(children[i+1]);
+						} else {
+							// the second script of the pair is missing -- add an empty one
+							let mtext = CanonicalizeContext::create_empty_element(&mathml.document());
+							new_children.push(ChildOfElement::Element(mtext));
+						}
 						i += 2;
 					}
 				}
